@@ -27,7 +27,7 @@ for f in json.load(open('/verif/known_findings.json'))['findings']:
 PY
   while read -r id prop commit; do
     if [ -f "selftest/revert-$id.diff" ]; then
-      git -C /repo apply "selftest/revert-$id.diff" || { echo "$id: cannot apply selftest/revert-$id.diff"; continue; }
+      git -C /repo apply "/verif/selftest/revert-$id.diff" || { echo "$id: cannot apply selftest/revert-$id.diff"; continue; }
     else
       git -C /repo show "$commit" -- src | git -C /repo apply -R || { echo "$id: cannot revert $commit"; continue; }
     fi
@@ -38,7 +38,7 @@ fi
 if [ "$MODE" = seeded ] || [ "$MODE" = all ]; then
   for d in seeded/C*/; do
     id=$(basename "$d"); prop=${id%%-*}
-    git -C /repo apply "$d/patch.diff" || { echo "$id: patch does not apply"; continue; }
+    git -C /repo apply "/verif/${d%/}/patch.diff" || { echo "$id: patch does not apply"; continue; }
     run_one "seeded-$id" "$prop"
     git -C /repo checkout -- .
   done
